@@ -130,7 +130,7 @@ type Engine struct {
 	sc       *Script
 	compSort map[string]string
 	structs  map[string]*types.Struct
-	guards   map[string]*GuardSpec // key: structKey+"."+field
+	guards   map[string][]*GuardSpec // key: structKey+"."+field
 	mutexOf  map[string][]string
 
 	// per top-level function
